@@ -299,6 +299,30 @@ func checkCopyMovePaths(srcPath, dstPath string) error {
 	return nil
 }
 
+// setAside moves the existing destination of a COPY or MOVE out of the way
+// instead of removing it, so that it can be put back if the operation fails.
+// The returned function finishes the job: called with failed set, it removes
+// whatever the operation left at dstPath and restores the old destination,
+// otherwise it discards the old destination.
+func setAside(dstPath string) (finish func(failed bool), err error) {
+	tmpDir, err := os.MkdirTemp(filepath.Dir(dstPath), ".webdav-replaced-*")
+	if err != nil {
+		return nil, err
+	}
+	aside := filepath.Join(tmpDir, "old")
+	if err := os.Rename(dstPath, aside); err != nil {
+		os.Remove(tmpDir)
+		return nil, err
+	}
+	return func(failed bool) {
+		if failed {
+			os.RemoveAll(dstPath)
+			os.Rename(aside, dstPath)
+		}
+		os.RemoveAll(tmpDir)
+	}, nil
+}
+
 func (fs LocalFileSystem) Copy(ctx context.Context, src, dst string, options *CopyOptions) (created bool, err error) {
 	srcPath, err := fs.localPath(src)
 	if err != nil {
@@ -316,6 +340,13 @@ func (fs LocalFileSystem) Copy(ctx context.Context, src, dst string, options *Co
 		return false, err
 	}
 
+	// a failed copy leaves nothing behind: neither a partial destination nor
+	// a hole where the old destination was
+	finish := func(failed bool) {
+		if failed {
+			os.RemoveAll(dstPath)
+		}
+	}
 	if _, err := os.Stat(dstPath); err != nil {
 		if !os.IsNotExist(err) {
 			return false, errFromMissingParent(err)
@@ -325,7 +356,7 @@ func (fs LocalFileSystem) Copy(ctx context.Context, src, dst string, options *Co
 		if options.NoOverwrite {
 			return false, NewHTTPError(http.StatusPreconditionFailed, os.ErrExist)
 		}
-		if err := os.RemoveAll(dstPath); err != nil {
+		if finish, err = setAside(dstPath); err != nil {
 			return false, errFromOS(err)
 		}
 	}
@@ -357,6 +388,7 @@ func (fs LocalFileSystem) Copy(ctx context.Context, src, dst string, options *Co
 		}
 		return nil
 	})
+	finish(err != nil)
 	if err != nil {
 		return false, err
 	}
@@ -381,6 +413,7 @@ func (fs LocalFileSystem) Move(ctx context.Context, src, dst string, options *Mo
 		return false, err
 	}
 
+	finish := func(failed bool) {}
 	if _, err := os.Stat(dstPath); err != nil {
 		if !os.IsNotExist(err) {
 			return false, errFromMissingParent(err)
@@ -390,12 +423,16 @@ func (fs LocalFileSystem) Move(ctx context.Context, src, dst string, options *Mo
 		if options.NoOverwrite {
 			return false, NewHTTPError(http.StatusPreconditionFailed, os.ErrExist)
 		}
-		if err := os.RemoveAll(dstPath); err != nil {
+		// put the old destination back if the rename fails (e.g. across
+		// file systems)
+		if finish, err = setAside(dstPath); err != nil {
 			return false, errFromOS(err)
 		}
 	}
 
-	if err := os.Rename(srcPath, dstPath); err != nil {
+	err = os.Rename(srcPath, dstPath)
+	finish(err != nil)
+	if err != nil {
 		// the source exists: ENOENT means the destination's parent is missing
 		return false, errFromMissingParent(err)
 	}
